@@ -343,7 +343,8 @@ memcasecmp(const char *b1, const char *b2, SBuf::size_type len)
 {
     int rv=0;
     while (len > 0) {
-        rv = tolower(*b1)-tolower(*b2);
+        // compare like memcmp() and strcasecmp() do: as unsigned char (and never hand tolower() a negative value)
+        rv = tolower(static_cast<unsigned char>(*b1)) - tolower(static_cast<unsigned char>(*b2));
         if (rv != 0)
             return rv;
         ++b1;
@@ -405,7 +406,7 @@ SBuf::compare(const char *s, const SBufCaseSensitive isCaseSensitive, const size
     // when this is a 0-length string, no need for any complexity.
     if (!length()) {
         ++stats.compareFast;
-        return '\0' - *s;
+        return '\0' - static_cast<unsigned char>(*s);
     }
 
     // brute-force scan in order to avoid ever needing strlen() on a c-string.
@@ -419,12 +420,12 @@ SBuf::compare(const char *s, const SBufCaseSensitive isCaseSensitive, const size
 
     // loop until we find a difference, a '\0', or reach the end of area to scan
     if (isCaseSensitive == caseSensitive) {
-        while ((rv = *left - *right++) == 0) {
+        while ((rv = static_cast<unsigned char>(*left) - static_cast<unsigned char>(*right++)) == 0) {
             if (*left++ == '\0' || --byteCount == 0)
                 break;
         }
     } else {
-        while ((rv = tolower(*left) - tolower(*right++)) == 0) {
+        while ((rv = tolower(static_cast<unsigned char>(*left)) - tolower(static_cast<unsigned char>(*right++))) == 0) {
             if (*left++ == '\0' || --byteCount == 0)
                 break;
         }
@@ -435,7 +436,7 @@ SBuf::compare(const char *s, const SBufCaseSensitive isCaseSensitive, const size
     // pretend we have a 0-terminator there to compare.
     // NP: the loop already incremented "right" ready for this comparison
     if (!byteCount && length() < n)
-        return '\0' - *right;
+        return '\0' - static_cast<unsigned char>(*right);
 
     // If we found a difference within the scan area,
     // or we found a '\0',
